@@ -92,6 +92,10 @@ package sourcebundle
 //@       && !(modeDirBit(fileMode(info)) && (excl(ignoreRules, Rel(root, absPath)) || excl(ignoreRules, Rel(root, absPath) + "/")))
 //@       ==> isLocalPath(Rel(RealPath(Abs(root)), RealPath(Join(RealPath(Abs(root)), Rel(root, absPath)))))
 //@   ensures C03,C10.prepare.skip-only-removed: err == nil && rerr == filepath.SkipDir ==> $lastRemoved == absPath
+// an excluded directory is removed; fails (recorded finding) where the directory is kept because a later rule might
+// re-include something below it: if nothing is, the directory stays behind empty
+//@   ensures C10.prepare.excluded-directory-removed: err == nil && rerr == nil && Rel(root, absPath) != "." && modeDirBit(fileMode(info))
+//@       && (excl(ignoreRules, Rel(root, absPath)) || excl(ignoreRules, Rel(root, absPath) + "/")) ==> $lastRemoved == absPath
 // filepath.Walk skips the rest of the containing directory when SkipDir is returned for a non-directory: the entries
 // after it would be neither pruned nor checked
 //@   ensures C10,C03.prepare.skipdir-only-for-directories: err == nil && rerr == filepath.SkipDir ==> modeDirBit(fileMode(info))
